@@ -583,7 +583,12 @@ func (e *SymEnv) Eval(x ast.Expr) Aff {
 		for _, el := range v.Elts {
 			if kv, ok := el.(*ast.KeyValueExpr); ok {
 				k := p.Str(kv.Key)
-				parts = append(parts, k+":"+e.Eval(kv.Value).String())
+				vs := e.Eval(kv.Value).String()
+				// a keyed field set to its zero value is the same literal without it (struct literals only)
+				if _, isStruct := p.Info.TypeOf(v).Underlying().(*types.Struct); isStruct && (vs == "nil" || vs == "0" || vs == "false" || vs == `""`) {
+					continue
+				}
+				parts = append(parts, k+":"+vs)
 			} else {
 				parts = append(parts, e.Eval(el).String())
 			}
@@ -622,6 +627,11 @@ func (e *SymEnv) substRoot(path string, x ast.Expr) string {
 			if at, ok := a.SingleAtom(); ok {
 				rn := e.nameOf(id)
 				if strings.HasPrefix(path, rn) {
+					// a local that holds the address of a field path (`cur := &pj.indexesChan`): selecting through it,
+					// or storing through `*cur`, addresses that path itself
+					if strings.HasPrefix(at, "&") && isPlainPath(at[1:]) && x != ast.Expr(id) {
+						return at[1:] + path[len(rn):]
+					}
 					return at + path[len(rn):]
 				}
 			}
@@ -1321,6 +1331,7 @@ func (p *GoProg) LoopSegmentPathsSetup(fd *ast.FuncDecl, loop ast.Stmt, limit in
 	var out []*SymPath
 	for _, pa := range paths {
 		env := p.NewFuncEnv(fd)
+		p.bindLoopInvariantViews(fd, loop, env)
 		if setup != nil {
 			setup(env)
 		}
@@ -1500,4 +1511,74 @@ func isPlainPath(a string) bool {
 		}
 	}
 	return true
+}
+
+// bindLoopInvariantViews: a local defined once, before the loop, as a plain field path of the receiver or a parameter
+// (`tape := a.tape.Tape`) stands for that path inside the loop when neither the local nor the path is assigned anywhere
+// else in the function. Loop-segment analyses start with an empty environment; this keeps a hoisted read from hiding
+// what is being read.
+func (p *GoProg) bindLoopInvariantViews(fd *ast.FuncDecl, loop ast.Stmt, env *SymEnv) {
+	if fd.Body == nil {
+		return
+	}
+	assignedPaths := map[string]int{}
+	assignedObjs := map[types.Object]int{}
+	ast.Inspect(fd.Body, func(n ast.Node) bool {
+		switch x := n.(type) {
+		case *ast.AssignStmt:
+			for _, l := range x.Lhs {
+				if id, ok := ast.Unparen(l).(*ast.Ident); ok {
+					assignedObjs[p.ObjOf(id)]++
+				} else {
+					assignedPaths[p.Str(l)]++
+				}
+			}
+		case *ast.IncDecStmt:
+			if id, ok := ast.Unparen(x.X).(*ast.Ident); ok {
+				assignedObjs[p.ObjOf(id)]++
+			} else {
+				assignedPaths[p.Str(x.X)]++
+			}
+		case *ast.UnaryExpr:
+			if x.Op == token.AND {
+				if id, ok := ast.Unparen(x.X).(*ast.Ident); ok {
+					assignedObjs[p.ObjOf(id)] += 2
+				}
+			}
+		}
+		return true
+	})
+	for _, st := range fd.Body.List {
+		if st.Pos() >= loop.Pos() {
+			break
+		}
+		as, ok := st.(*ast.AssignStmt)
+		if !ok || as.Tok != token.DEFINE || len(as.Lhs) != 1 || len(as.Rhs) != 1 {
+			continue
+		}
+		id, ok := as.Lhs[0].(*ast.Ident)
+		if !ok || assignedObjs[p.ObjOf(id)] != 1 {
+			continue
+		}
+		rhs := ast.Unparen(as.Rhs[0])
+		if _, isSel := rhs.(*ast.SelectorExpr); !isSel {
+			continue
+		}
+		path, ok := env.lvalPath(rhs)
+		if !ok {
+			continue
+		}
+		src := p.Str(rhs)
+		clash := false
+		for ap := range assignedPaths {
+			if ap == src || strings.HasPrefix(src, ap+".") {
+				clash = true
+			}
+		}
+		// slices only: a copied slice header sees the same elements; scalars copied before the loop would go stale
+		if _, isSlice := p.Info.TypeOf(rhs).Underlying().(*types.Slice); !isSlice || clash {
+			continue
+		}
+		env.vars[p.ObjOf(id)] = affAtom(path)
+	}
 }
